@@ -190,18 +190,54 @@ def muladd_zero_test(chk):
     chk.floor('P-256 muladd implementations', n, 4)
 
 
+def rfc6979_inputs(chk):
+    """RFC 6979 3.2: the nonce generator is keyed with int2octets(x) || bits2octets(h1), where bits2octets reduces the truncated
+    hash modulo the group order.  In both signers the value m that is encoded into the DRBG seed must already have been reduced
+    (conditional subtraction of n), and the same m is used for s; i15 and i31 must agree."""
+    R = 'rfc6979-seed-reduced'
+    n = 0
+    for w in ('i15', 'i31'):
+        src = 'src/ec/ecdsa_%s_sign_raw.c' % w
+        fn = 'br_ecdsa_%s_sign_raw' % w
+        u = build.load_unit(src)
+        F = irf.Units({'u': u}).func(fn)
+        if F is None:
+            raise AnalysisBroken('%s vanished' % fn)
+        m_al = [d['v'] for d in F.f.get('declares', []) if d['var'] == 'm']
+        if len(m_al) != 1:
+            raise AnalysisBroken('%s: local m not found' % fn)
+        mb = {'k': 'i', 'v': m_al[0]}
+        init = F.calls('br_hmac_drbg_init')
+        enc = [c for c in F.calls('br_%s_encode' % w) if F.addr_of(c['ops'][2])[0] == mb and init and F.dominates(c['id'], init[0]['id'])]
+        subs = [c for c in F.calls('br_%s_sub' % w) if F.addr_of(c['ops'][0])[0] == mb and c['ops'][2]['k'] != 'c']
+        b2i = [c for c in F.calls('br_ecdsa_%s_bits2int' % w) if F.addr_of(c['ops'][0])[0] == mb]
+        n += 1
+        inst = '%s: the hash value encoded into the RFC 6979 seed is reduced modulo n first' % fn
+        if len(init) != 1 or len(enc) != 1 or not b2i:
+            chk.violation(R, inst, F.where(), 'shape changed: %d drbg_init, %d encodings of m before it, %d bits2int' % (len(init), len(enc), len(b2i)), key='%s %s shape' % (R, w))
+            continue
+        okk = any(F.dominates(b['id'], s_['id']) and F.dominates(s_['id'], enc[0]['id']) for s_ in subs for b in b2i)
+        if okk:
+            chk.ok(R, inst, F.where(enc[0]), 'bits2int -> conditional subtraction of n -> encode -> br_hmac_drbg_init')
+        else:
+            chk.violation(R, inst, F.where(enc[0]), 'no reduction of m (br_%s_sub(m, n, ctl)) lies between bits2int and the encoding of m into the DRBG seed: for a truncated '
+                          'hash >= n the nonce differs from the RFC 6979 value (and from the other implementation)' % w, key='%s %s' % (R, w))
+    chk.floor('RFC 6979 signers', n, 2)
+
+
 def run(tier):
     chk = report.Check('C11', tier,
                        'Static: (1) curve constants of every implementation (field primes, Montgomery constants R^2 and b*R in the i15/i31 word '
                        'encodings, generators, orders, curve definition structs, Curve25519 p / A24 / base point) equal values generated from '
                        'SEC 2 / FIPS 186-4 / RFC 7748; (2) rejection obligations: invalid coordinates, off-curve points, failed decodings, r/s out '
                        'of range, s = 0, failed point arithmetic force the failure return, in prime_i15 and prime_i31 and both ECDSA verifiers; '
-                       'accumulator updates of the verdict are conjuncts; the four P-256 api_muladd test Z == 0 on a fully reduced Z. NOT decided: the group law, scalar multiplication, RFC 6979 values.',
+                       'accumulator updates of the verdict are conjuncts; the four P-256 api_muladd test Z == 0 on a fully reduced Z. the RFC 6979 seed is built from the reduced hash value in both signers. NOT decided: the group law, scalar multiplication, RFC 6979 values.',
                        trusted=['reference constants in sa/tab.py (self-checked: generators satisfy the curve equation)', 'clang/opt 14'])
     constants(chk)
     oblig.run_obligations(chk, obligations())
     rs_nonzero(chk)
     muladd_zero_test(chk)
+    rfc6979_inputs(chk)
     conj = []
     for w in ('i15', 'i31'):
         conj.append(('src/ec/ec_prime_%s.c' % w, 'point_decode', 'r', 'and', 3, 'decode results, format byte and curve equation are conjuncts'))
